@@ -98,23 +98,20 @@ SPEC = {
         'liveness only: Send calls succeed, request ids do not repeat (crypto/rand 64 bit), at most F_home dishonest '
         'observers per lane, honest nodes answer requests sent to them correctly',
     ],
-    'level_text': 'PARTIAL. Proof: 38 closed Coq theorems. 25 property theorems over the executable two-phase machine (gstep over Resp | TimerFire | CtxDone), for every '
-                  'configuration, schedule parameter and event list: phase A hands on only with F_home+1 DISTINCT configured observers per lane whose signed responses '
-                  'carry the same root for exactly the requested lane and interval (C06_obs_threshold, C06_lane_source_exact: selector and the last 20 bytes of the '
-                  'requested on-ramp); success only with F_remote+1 DISTINCT configured signers valid for exactly the returned report, strictly ascending by address '
-                  '(C06_sig_threshold, C06_sigs_strictly_ordered); the call ends on CtxDone and never panics (C06_total_terminates, C06_total_no_panic); liveness: enough '
-                  'honest timely answers give success whatever else arrives (C06_liveness, _obs); no node is asked or counted twice (C06_one_observation_per_node); '
-                  'requests are well formed and every error kind has its origin (C06_requests_wellformed, C06_phaseA_no_sig_request, C06_failure_origin). Histories of '
-                  'calls on one long-lived controller: the multi-call machine equals the single-call machine per call, both thresholds hold in every call against that '
-                  "call's configuration, late answers to earlier calls change nothing (C06_history_memoryless, _sig_threshold, _obs_threshold, _leftover_ignored). "
-                  'Unrepaired code refuted (F12, repaired in /repo): one node counted twice, nil sub-message panic, comparator panic. Judge soundness (13 C06_judge_*): '
-                  'for every sink the executable property - result, Send log, error kind and a liveness twin - accepts every outcome the model allows and implies the '
-                  'Prop-level clauses. Correspondence, every run: the real ComputeReportSignatures through a scripted PeerClient, each item delivered only when the '
-                  'controller is parked in its select (GOMAXPROCS=1), race items compared with the SET of outcomes the model allows; ONE controller from NewController '
-                  'over 2..4 calls with RMNHome / RMNRemote configuration changing (C06_hist*); the observer sets are tied to the RMNHome bitmaps by the borrowed C18 '
-                  'bitmap / conversion parts. Translation tie (6 theorems, C06_gen.v + C18_gen.v): GteFPlusOne, LtFPlusOne, IsNodeObserver. Partial because: which of '
-                  'several simultaneously ready select cases Go picks beyond the exercised race pairs, and real wall-clock deadlines (timers are due / not due, '
-                  'cancellation is the event CtxDone), are outside the model.',
+    'level_text': 'PARTIAL. Proof: 38 closed Coq theorems. 25 property theorems over the executable two-phase machine, for every configuration, schedule parameter and '
+                  'event list: phase A hands on only with F_home+1 DISTINCT configured observers per lane whose signed responses carry the same root for exactly the '
+                  'requested lane and interval (C06_obs_threshold, C06_lane_source_exact); success only with F_remote+1 DISTINCT configured signers valid for exactly the '
+                  'returned report, strictly ascending by address (C06_sig_threshold, C06_sigs_strictly_ordered); the call ends on CtxDone and never panics; enough '
+                  'honest timely answers give success whatever else arrives (C06_liveness); no node is asked or counted twice; requests are well formed and every error '
+                  'kind has its origin. Histories of calls on one long-lived controller: the multi-call machine equals the single-call machine per call, both thresholds '
+                  "hold in every call against that call's configuration, late answers to earlier calls change nothing (C06_history_memoryless, _sig_threshold, "
+                  '_obs_threshold, _leftover_ignored). Unrepaired code refuted (F12, repaired in /repo): one node counted twice, nil sub-message panic, comparator panic. '
+                  'Judge soundness (13 C06_judge_*): the executable property - result, Send log, error kind, liveness twin - accepts every outcome the model allows and '
+                  'implies the Prop-level clauses. Correspondence, every run: the real ComputeReportSignatures through a scripted PeerClient, each item delivered only '
+                  'when the controller is parked in its select (GOMAXPROCS=1), race items compared with the SET of outcomes the model allows; ONE controller from '
+                  'NewController over 2..4 calls with the RMNHome / RMNRemote configuration changing (C06_hist*); observer sets tied to the RMNHome bitmaps by the '
+                  'borrowed C18 parts. Translation tie (6 theorems, C06_gen.v + C18_gen.v): GteFPlusOne, LtFPlusOne, IsNodeObserver. Partial because which of several '
+                  'simultaneously ready select cases Go picks beyond the exercised race pairs, and real wall-clock deadlines, are outside the model.',
     'level_note': 'Trusted: Coq kernel, hand-written model and theorem statements, differential harness with its parked-goroutine protocol (goroutine status strings of '
                   'runtime.Stack, go 1.23 timers with one P; a case that came out as a hang is re-run before it is reported), leaf translator. Specific: ed25519 '
                   'verification and RMNCrypto.VerifyReportSignatures are oracles (Section variables; the harness stubs are keyed by the signer and bind the signed bytes '
